@@ -1675,3 +1675,46 @@ def k9(facts, tier):
                      "still decrypts and loads")
     if n == 0:
         yield ob(["C14"], "K9", "chunk-length-identity", "undecided", where(f), "read of the chunk length not found")
+
+
+# ---------------------------------------------------------------------------------------------
+# W17 (C02, C01): sign-and-magnitude encoding of SystemTime is canonical at zero
+
+@rule("W17", ["C02", "C01"], floor=1, doc="SystemTime is written as distance-from-epoch plus a before-epoch flag (bit 127): the flag is set only for "
+      "instants strictly before the epoch, i.e. on the Err branch of `self.duration_since(UNIX_EPOCH)`; with the roles swapped the "
+      "epoch itself (distance 0) would be written with the flag set - equal values, different bytes")
+def w17(facts, tier):
+    f = facts.fns.get("<std::time::SystemTime as savefile::Serialize>::serialize")
+    if f is None:
+        return
+    selfv = f["params"][0]["pat"]["v"] if f["params"] and f["params"][0].get("pat") else None
+    call = next((x for x in walk(f["body"]) if x.get("k") == "Call" and (callee(x) or "").endswith("SystemTime::duration_since")
+                 and len(x.get("args", [])) == 2), None)
+    flag_sites = [x for x in walk(f["body"]) if x.get("k") == "AssignOp" and x.get("op") in ("BitOrAssign", "BitOr")
+                  and any(y.get("k") == "Lit" and y.get("int") == 127 for y in walk(x["r"]))]
+    if call is None or not flag_sites:
+        yield ob(["C02", "C01"], "W17", "before-epoch-flag", "undecided", where(f), "duration_since / flag assignment not found (other formulation)")
+        return
+    recv_is_self = any(y.get("k") == "Var" and y["v"] == selfv for y in walk(call["args"][0]))
+    arg_is_self = any(y.get("k") == "Var" and y["v"] == selfv for y in walk(call["args"][1]))
+    # which arm of the match on the call's result leads to the flag?
+    from ..flow import parent_map
+    pm = parent_map(f["body"])
+    arm = None
+    p, child = pm.get(id(call)), call
+    while p is not None and p.get("k") != "Match":
+        child, p = p, pm.get(id(p))
+    if p is not None:
+        for a in p["arms"]:
+            v = a["pat"].get("variant")
+            sets_here = any(s is y for s in flag_sites for y in walk(a["body"]))
+            truthy = any(y.get("k") == "Lit" and y.get("ty") == "bool" and y.get("int") == 1 for y in walk(a["body"]))
+            if sets_here or (truthy and not any(s is y for s in flag_sites for a2 in p["arms"] for y in walk(a2["body"]))):
+                arm = v
+    ok = recv_is_self and not arg_is_self and arm == "Err"
+    bad = arg_is_self and arm == "Ok"
+    yield ob(["C02", "C01"], "W17", "before-epoch-flag", "pass" if ok else ("violation" if bad else "undecided"), where(f, call),
+             "the flag is set on the Err branch of self.duration_since(UNIX_EPOCH): strictly before the epoch" if ok else
+             ("the before-epoch flag is set on the Ok branch of UNIX_EPOCH.duration_since(self), which also covers self == UNIX_EPOCH "
+              "(distance 0): the epoch is written with the flag bit set, so equal instants no longer have equal bytes and the bytes "
+              "differ from the documented encoding" if bad else "flag polarity not determined"))
